@@ -5,5 +5,11 @@ CHECKS = {
  'C04': dict(text='For every finite binary64 elevation field on each listed grid configuration (real profile grids N<=5 quick / N<=6 thorough; tables dumped from the real raster/mesh classes), '
                   'single_flow_router::apply_seq yields exactly a steepest-descent receiver; decided by SAT/SMT over the translated real code, counter-examples replayed natively.',
              note=NOTE, technique=TECH),
+ 'C05': dict(text='For every finite binary64 elevation field on each listed configuration, multi_flow_router::apply yields exactly the unmasked strictly lower neighbours as receivers (each once, neighbour order, grid distance) and a single self receiver otherwise; also after a second application on the same graph object. '
+                  'Weight clause: only the NaN-weights finding is demonstrated (counter-example replayed natively); the numeric weight formula is not claimed at binary64 (the divider equivalence query did not finish: 15 min, cvc5).',
+             note=NOTE + '; traversal-order computations called at the end of apply are cut (decided in C06)', technique=TECH),
+ 'C11': dict(text='Part (a) only: for every range start, length <= RANGE and min block size <= MINMAX and each pool size 1..16, thread_pool::blocks yields non-empty, contiguous, disjoint blocks covering the range, at most pool-size many, without division by zero. '
+                  'Parts (b) protocol/deadlock and (c) memory-model race are not decided by this check (see DESIGN.md).',
+             note=NOTE, technique=TECH),
 }
 NOT_APPLICABLE = {}
